@@ -41,11 +41,18 @@ VarAttr(a) == [t |-> "map", f |-> "var", attr |-> a]
 CFilter(k, form) == [t |-> "cfilter", k |-> k, form |-> form]
 CRunIf(k, f) == [t |-> "crunif", k |-> k, f |-> f]
 HasKey(k, v) == k \in v.c
+\* RunIf("<key>", D) where the run element D yields every value it gets and then that value + 1: an element
+\* that yields several values for one
+RunIfDup(k) == [t |-> "runifdup", k |-> k]
+Dup(st, v) == IF HasKey(st.k, v) THEN <<v, ApplyMap("inc", v)>> ELSE <<v>>
+\* post elements that keep nothing between two runs (compute() may then be called again)
+Stateless(post) == \A i \in 1..Len(post) : post[i].t \in {"map", "filter", "slice", "runif", "cfilter", "crunif", "runifdup"}
 OnHave2(st, loc, v) ==
   CASE st.t = "cfilter" -> [loc |-> loc, em |-> IF HasKey(st.k, v) THEN <<v>> ELSE <<>>]
     [] st.t = "crunif" -> [loc |-> loc, em |-> IF HasKey(st.k, v)
                                                 THEN (IF st.f = "drop" THEN <<>> ELSE <<ApplyMap(st.f, v)>>)
                                                 ELSE <<v>>]
+    [] st.t = "runifdup" -> [loc |-> loc, em |-> Dup(st, v)]
     [] OTHER -> OnHave(st, loc, v)
 \* FlowSem.Sem over the extended vocabulary
 RECURSIVE StageRun2(_, _, _, _)
@@ -81,6 +88,7 @@ FillIntoStep(st, loc, v) ==
     [] st.t = "filter" -> [loc |-> loc, em |-> IF Pred(st.p, v) THEN <<v>> ELSE <<>>, stop |-> FALSE]
     [] st.t = "runif" -> [loc |-> loc, stop |-> FALSE,
                           em |-> IF Pred(st.p, v) THEN (IF st.f = "drop" THEN <<>> ELSE <<ApplyMap(st.f, v)>>) ELSE <<v>>]
+    [] st.t = "runifdup" -> [loc |-> loc, em |-> Dup(st, v), stop |-> FALSE]
     [] st.t = "cfilter" -> [loc |-> loc, em |-> IF HasKey(st.k, v) THEN <<v>> ELSE <<>>, stop |-> FALSE]
     [] st.t = "crunif" -> [loc |-> loc, stop |-> FALSE,
                            em |-> IF HasKey(st.k, v) THEN (IF st.f = "drop" THEN <<>> ELSE <<ApplyMap(st.f, v)>>) ELSE <<v>>]
